@@ -438,6 +438,122 @@ fn check_column(col: &DynamicColumn, want: &[Vec<Cv>], n: u32, st: &mut Stats) -
     Ok(())
 }
 
+
+/// Batch accessors and row-range restricted lookups of one typed column against its own per-row reading
+/// (which `check_column` compares with the model): `first_vals` over batches of every length 1..=9 and 63..=66
+/// (contiguous from three offsets, and strided), `get_vals` / `get_vals_opt` / `get_range` on the value store of
+/// a full column, and value-range lookups restricted to sub-ranges of the rows.
+fn check_batches_and_row_ranges<T>(c: &tantivy_columnar::Column<T>, n: u32, what: &str, st: &mut Stats) -> Result<(), (String, String)>
+where T: Copy + PartialOrd + std::fmt::Debug + Send + Sync + 'static {
+    let same = |a: &T, b: &T| a == b || (a != a && b != b);
+    let rows: Vec<Vec<T>> = (0..n).map(|d| c.values_for_doc(d).collect()).collect();
+    let card = c.get_cardinality();
+    let lens: Vec<usize> = (1..=9).chain(63..=66).collect();
+    for &start in &[0u32, 1, n / 2] {
+        for &len in &lens {
+            for stride in [1u32, 3] {
+                let docids: Vec<u32> = (0..len as u32).map(|k| start + k * stride).filter(|d| *d < n).collect();
+                if docids.is_empty() {
+                    continue;
+                }
+                st.count("batch_reads");
+                let mut out: Vec<Option<T>> = vec![None; docids.len()];
+                c.first_vals(&docids, &mut out);
+                for (k, d) in docids.iter().enumerate() {
+                    let want = rows[*d as usize].first();
+                    let ok = match (&out[k], want) {
+                        (Some(a), Some(b)) => same(a, b),
+                        (None, None) => true,
+                        _ => false,
+                    };
+                    if !ok {
+                        return Err(("batch_read_differs".into(), format!("{what}: first_vals over {} docs from {start} step {stride}: entry {k} (doc {d}) = {:?}, values_for_doc gives {:?}", docids.len(), out[k], want)));
+                    }
+                }
+                if card == Cardinality::Full {
+                    let mut o2: Vec<Option<T>> = vec![None; docids.len()];
+                    c.values.get_vals_opt(&docids, &mut o2);
+                    let mut o3: Vec<T> = vec![rows[0][0]; docids.len()];
+                    c.values.get_vals(&docids, &mut o3);
+                    for (k, d) in docids.iter().enumerate() {
+                        let want = &rows[*d as usize][0];
+                        if !o2[k].as_ref().map(|x| same(x, want)).unwrap_or(false) || !same(&o3[k], want) {
+                            return Err(("batch_read_differs".into(), format!("{what}: get_vals / get_vals_opt over {} rows from {start} step {stride}: entry {k} (row {d}) = {:?} / {:?}, get_val gives {:?}", docids.len(), o3[k], o2[k], want)));
+                        }
+                    }
+                    if stride == 1 {
+                        let mut o4: Vec<T> = vec![rows[0][0]; docids.len()];
+                        c.values.get_range(start as u64, &mut o4);
+                        for (k, d) in docids.iter().enumerate() {
+                            if !same(&o4[k], &rows[*d as usize][0]) {
+                                return Err(("batch_read_differs".into(), format!("{what}: get_range({start}, {} rows): entry {k} = {:?}, get_val gives {:?}", docids.len(), o4[k], rows[*d as usize][0])));
+                            }
+                        }
+                    }
+                }
+            }
+        }
+    }
+    // value ranges from the column's own values
+    let mut vals: Vec<T> = rows.iter().flatten().copied().filter(|v| v == v).collect();
+    vals.sort_by(|a, b| a.partial_cmp(b).unwrap());
+    if vals.is_empty() {
+        return Ok(());
+    }
+    let (lo, med, hi) = (vals[0], vals[vals.len() / 2], vals[vals.len() - 1]);
+    let mut doc_ranges: Vec<(u32, u32)> = vec![(0, n), (1, n.saturating_sub(1)), (n / 3, 2 * n / 3), (n / 2, n), (0, n / 2)];
+    // row ranges stay inside the column: the bit-packed codec asserts "Requested index is out of bounds" for a
+    // range past the last row, so that is a precondition of the lookup and not a behaviour to compare
+    for (vlo, vhi) in [(lo, hi), (med, hi), (lo, med), (med, med)] {
+        for &(dlo, dhi) in &doc_ranges {
+            if dlo > dhi {
+                continue;
+            }
+            st.count("row_range_lookups");
+            let mut got = vec![];
+            c.get_docids_for_value_range(vlo..=vhi, dlo..dhi, &mut got);
+            got.dedup();
+            // -0.0 vs +0.0: equal for IEEE comparison, distinct in the total order of the monotonic mapping; a
+            // row that is in the range only through such a value may be reported either way
+            let ambiguous = |v: &T| (*v == vlo && format!("{v:?}") != format!("{vlo:?}")) || (*v == vhi && format!("{v:?}") != format!("{vhi:?}"));
+            let sure = |d: &u32| rows[*d as usize].iter().any(|v| vlo <= *v && *v <= vhi && !ambiguous(v));
+            let maybe = |d: &u32| rows[*d as usize].iter().any(|v| vlo <= *v && *v <= vhi);
+            got.retain(|d| (*d as usize) >= rows.len() || sure(d) || !maybe(d));
+            let want: Vec<u32> = (dlo..dhi.min(n)).filter(sure).collect();
+            if got != want {
+                let first = got.iter().zip(want.iter()).position(|(a, b)| a != b).unwrap_or(got.len().min(want.len()));
+                return Err(("row_range_lookup_differs".into(), format!("{what} ({n} rows, {card:?}): get_docids_for_value_range({vlo:?} ..= {vhi:?}, rows {dlo}..{dhi}) returns {} docs, a scan finds {}; first difference at index {first}: {:?} vs {:?}", got.len(), want.len(), got.get(first), want.get(first))));
+            }
+        }
+    }
+    Ok(())
+}
+
+/// The u64 view of a column (`open_u64_lenient`: monotonic mapping of numbers, compact space of ip addresses,
+/// term ordinals of strings and bytes) orders the rows exactly like the typed values, and answers batch reads
+/// and row-range restricted lookups like a scan of itself.
+fn check_u64_view(c64: &tantivy_columnar::Column<u64>, want: &[Vec<Cv>], n: u32, st: &mut Stats) -> Result<(), (String, String)> {
+    st.count("u64_views");
+    let codes: Vec<Vec<u64>> = (0..n).map(|d| c64.values_for_doc(d).collect()).collect();
+    for (i, r) in want.iter().enumerate() {
+        if codes[i].len() != r.len() {
+            return Err(("u64_view_differs".into(), format!("row {i}: the u64 view holds {} values, the typed column {}", codes[i].len(), r.len())));
+        }
+    }
+    let flat: Vec<(&Cv, u64)> = want.iter().zip(codes.iter()).flat_map(|(r, c)| r.iter().zip(c.iter().copied())).collect();
+    for w in flat.windows(2) {
+        let ((a, ca), (b, cb)) = (w[0], w[1]);
+        let Some(ord) = a.partial_cmp(b) else { continue };
+        if matches!((a, b), (Cv::F(x), Cv::F(y)) if x == y && x.to_bits() != y.to_bits()) {
+            continue;
+        }
+        if ord != ca.cmp(&cb) {
+            return Err(("u64_view_order_differs".into(), format!("values {} and {} compare {ord:?} but their u64 codes {ca} and {cb} compare {:?}", show_row(&[a.clone()]), show_row(&[b.clone()]), ca.cmp(&cb))));
+        }
+    }
+    check_batches_and_row_ranges(c64, n, "u64 view", st)
+}
+
 fn open_col(r: &ColumnarReader, name: &str) -> Result<Option<DynamicColumn>, String> {
     let hs = r.read_columns(name).map_err(|e| e.to_string())?;
     match hs.len() {
@@ -466,7 +582,35 @@ pub fn check_spec(spec: &Spec, st: &mut Stats) -> Option<(String, String)> {
         }
         Some(c) => {
             st.count(&format!("cardinality.{:?}", c.get_cardinality()));
-            check_column(&c, &want, spec.n, st).err()
+            if let Err(e) = check_column(&c, &want, spec.n, st) {
+                return Some(e);
+            }
+            let typed = match &c {
+                DynamicColumn::Bool(c) => check_batches_and_row_ranges(c, spec.n, "bool column", st),
+                DynamicColumn::I64(c) => check_batches_and_row_ranges(c, spec.n, "i64 column", st),
+                DynamicColumn::U64(c) => check_batches_and_row_ranges(c, spec.n, "u64 column", st),
+                DynamicColumn::F64(c) => check_batches_and_row_ranges(c, spec.n, "f64 column", st),
+                DynamicColumn::IpAddr(c) => check_batches_and_row_ranges(c, spec.n, "ip column", st),
+                DynamicColumn::DateTime(c) => check_batches_and_row_ranges(c, spec.n, "date column", st),
+                DynamicColumn::Bytes(_) | DynamicColumn::Str(_) => Ok(()),
+            };
+            if let Err(e) = typed {
+                return Some(e);
+            }
+            if let Ok(hs) = r.read_columns("c") {
+                for h in hs {
+                    match h.open_u64_lenient() {
+                        Ok(Some(c64)) => {
+                            if let Err(e) = check_u64_view(&c64, &want, spec.n, st) {
+                                return Some(e);
+                            }
+                        }
+                        Ok(None) => {}
+                        Err(e) => return Some(("column_open_error".into(), format!("open_u64_lenient: {e}"))),
+                    }
+                }
+            }
+            None
         }
     }
 }
